@@ -380,6 +380,7 @@ func c17FanOut(r *Run) {
 	}
 	var consumers []*consumer
 	ctx, cancel := context.WithCancel(context.Background())
+	defer cancel()
 	for _, tp := range topics {
 		n := 1 + t.Int(3)
 		for i := 0; i < n; i++ {
